@@ -30,7 +30,8 @@ pub fn check_rule_with_hint<'r, L: Language>(
 ) -> RResult<()> {
   match hint {
     CheckHint::Global => {
-      // do not check utils defined here because global rules are not yet ready
+      // do not check utils defined here because global rules are not yet ready:
+      // they are checked once all global rules are registered, see parse_global_utils
       check_vars(rule, utils, constraints, transform, fixer)?;
     }
     CheckHint::Normal => {
